@@ -2,6 +2,7 @@ import Spine.ApprovalExact
 import Spine.ApprovalFrame
 import Spine.ApprovalRefine
 import Spine.ApprovalConn
+import Spine.ApprovalWire
 /-!
 # C12 — write approval: unanimous, timely, exactly one outcome per write
 
@@ -272,6 +273,113 @@ example :
       .commit 11 true, .timeoutSend 2, .lookup 12 3, .commit 12 true]).st 2 = .done .error ∧
     (specRun 2 [.arrive 1, .arrive 2, .arrive 3, .lookup 10 1, .commit 10 false, .lookup 11 2, .timeoutTake 2,
       .commit 11 true, .timeoutSend 2, .lookup 12 3, .commit 12 true]).st 3 = .waiting 1 := by
+  decide
+
+/-! ### acknowledgement, data, connection; any number of peers (`Spine/ApprovalWire.lean`)
+
+The effects of an outcome — result datagrams (`ApprW.wireOf`: connection, msgCounterReference, success / error) and
+the change of the feature's data (`ApprW.dataOf`: the writes applied, in order) — are functions of the outcome list
+and of the write's own attributes (`ApprW.Attr`: ackRequest, the connection it came in on), as in `processWrite` and
+the two error paths of feature_local.go. The driver prints them, the harness compares them per step with the result
+datagrams on every connection's writer. `attr` is arbitrary in every theorem. -/
+
+/-- "applied (and acknowledged if requested)": a success result for write `w` is on the wire exactly when `w` was
+    applied — unanimously approved in time, see `c12_applied_iff_unanimous_in_time` — AND its header asked for an
+    acknowledgement, and then on the connection the write came in on (repaired member, all event lists). -/
+theorem c12_ack_iff_requested (attr : Nat → ApprW.Attr) (n : Nat) (evs : List Ev) (c w : Nat) :
+    (c, w, ApprW.Res.success) ∈ ApprW.wireOf attr (run Cfg.clean n evs) ↔
+      (specRun n evs).st w = .done .applied ∧ (attr w).ack = true ∧ c = (attr w).conn := by
+  rw [ApprW.mem_wireOf, c12_applied_iff_unanimous_in_time]
+  constructor
+  · rintro ⟨hc, ⟨_, h, ha⟩ | ⟨hr, _⟩⟩
+    · exact ⟨h, ha, hc⟩
+    · cases hr
+  · rintro ⟨h, ha, hc⟩; exact ⟨hc, Or.inl ⟨rfl, h, ha⟩⟩
+
+/-- "a single denial, or the timeout, yields an error result": an error result for `w` is on the wire exactly when
+    `w` was denied or timed out, whether or not an acknowledgement was requested, on the writer's connection. -/
+theorem c12_error_result_iff (attr : Nat → ApprW.Attr) (n : Nat) (evs : List Ev) (c w : Nat) :
+    (c, w, ApprW.Res.error) ∈ ApprW.wireOf attr (run Cfg.clean n evs) ↔
+      (specRun n evs).st w = .done .error ∧ c = (attr w).conn := by
+  rw [ApprW.mem_wireOf, c12_error_iff_denied_or_timed_out]
+  constructor
+  · rintro ⟨hc, ⟨hr, _⟩ | ⟨_, h⟩⟩
+    · cases hr
+    · exact ⟨h, hc⟩
+  · rintro ⟨h, hc⟩; exact ⟨hc, Or.inr ⟨rfl, h⟩⟩
+
+/-- results only on the writer's connection, and at most one result per write: every member of the family for the
+    connection, the repaired member for the count -/
+theorem c12_results_only_on_writers_connection (c : Cfg) (attr : Nat → ApprW.Attr) (n : Nat) (evs : List Ev) :
+    ∀ r ∈ ApprW.wireOf attr (run c n evs), r.1 = (attr r.2.1).conn := by
+  rintro ⟨cn, w, k⟩ hr
+  exact ((ApprW.mem_wireOf attr _ cn w k).mp hr).1
+
+theorem c12_at_most_one_result (attr : Nat → ApprW.Attr) (n : Nat) (evs : List Ev) (w : Nat) :
+    ((ApprW.wireOf attr (run Cfg.clean n evs)).filter (·.2.1 = w)).length ≤ 1 := by
+  rw [ApprW.wireOf, ApprW.filter_flatMap_results]
+  exact Nat.le_trans (ApprW.flatMap_length_le _ _ (ApprW.results_length attr)) (c12_at_most_one_outcome n evs w)
+
+/-- non-vacuity: three writes on two connections; 1 (ack requested) applied → success on connection 7; 2 (no ack)
+    applied → nothing; 3 (ack requested) denied → error on connection 8; the data saw 1 then 2 -/
+example :
+    let attr : Nat → ApprW.Attr := fun w => { ack := w != 2, conn := if w = 3 then 8 else 7 }
+    let s := run Cfg.clean 1 [.arrive 1, .arrive 2, .arrive 3, .lookup 10 1, .commit 10 true, .lookup 11 2,
+      .commit 11 true, .lookup 12 3, .commit 12 false]
+    ApprW.wireOf attr s = [(7, 1, .success), (8, 3, .error)] ∧ ApprW.dataOf s = [1, 2] := by decide
+
+/-- "leaves the data unchanged": the data is changed by exactly the writes that were applied … -/
+theorem c12_data_is_the_applied_writes (n : Nat) (evs : List Ev) (w : Nat) :
+    w ∈ ApprW.dataOf (run Cfg.clean n evs) ↔ (specRun n evs).st w = .done .applied := by
+  rw [ApprW.mem_dataOf, c12_applied_iff_unanimous_in_time]
+
+/-- … and only at the commit of an approval: a denial, a timeout (either half), an arrival, a lookup, the removal of
+    the connection leave the data as it was (every member of the family, every state). -/
+theorem c12_data_unchanged_unless_approval_commits (c : Cfg) (s : St) (e : Ev)
+    (h : ApprW.dataOf (step c s e) ≠ ApprW.dataOf s) : ∃ op, e = .commit op true :=
+  ApprW.data_changes_only_at_approval c s e h
+
+/-- non-vacuity: a denial and a timeout produce their error outcomes and leave the data alone -/
+example :
+    let s := run Cfg.clean 2 [.arrive 1, .arrive 2, .lookup 10 1, .commit 10 true, .lookup 11 1]
+    ApprW.dataOf (step Cfg.clean s (.commit 11 true)) = [1] ∧ ApprW.dataOf s = [] ∧
+    ApprW.dataOf (step Cfg.clean s (.commit 11 false)) = [] ∧
+    (step Cfg.clean s (.commit 11 false)).outcomes = [(1, .error)] ∧
+    ApprW.dataOf (step Cfg.clean (step Cfg.clean s (.timeoutTake 2)) (.timeoutSend 2)) = [] := by decide
+
+/-- "independently of any other write pending … from another peer", any number of peers: under every interleaving of
+    the events of all peers, the approval state of peer `p` — pending writes, timers, tallies, outcomes — is the one
+    its own events alone produce; every theorem of this file therefore holds per peer in the world of all peers. -/
+theorem c12_independent_of_other_peers (n : Nat) (evs : List (Nat × Ev)) (p : Nat) :
+    ApprW.wrun n evs p = run Cfg.clean n (ApprW.proj p evs) :=
+  ApprW.wrun_proj n evs p
+
+/-- instance: applied iff unanimous in time, in the world of all peers -/
+theorem c12_world_applied_iff (n : Nat) (evs : List (Nat × Ev)) (p w : Nat) :
+    (w, Out.applied) ∈ (ApprW.wrun n evs p).outcomes ↔ (specRun n (ApprW.proj p evs)).st w = .done .applied := by
+  rw [c12_independent_of_other_peers, c12_applied_iff_unanimous_in_time]
+
+/-- non-vacuity: two peers use the same counters; peer 0's write 1 is approved twice, peer 1's write 1 once and
+    then times out, interleaved -/
+example :
+    let evs : List (Nat × Ev) := [(0, .arrive 1), (1, .arrive 1), (0, .lookup 10 1), (1, .lookup 10 1),
+      (1, .commit 10 true), (0, .commit 10 true), (1, .timeoutTake 1), (0, .lookup 11 1), (1, .timeoutSend 1),
+      (0, .commit 11 true)]
+    (ApprW.wrun 2 evs 0).outcomes = [(1, .applied)] ∧ (ApprW.wrun 2 evs 1).outcomes = [(1, .error)] ∧
+    (ApprW.proj 0 evs).length = 5 ∧ (run Cfg.clean 2 (ApprW.proj 1 evs)).outcomes = [(1, .error)] := by decide
+
+/-- "… from the same peer", over whole segments: any sequence of events none of which is about `w` — arrivals,
+    verdicts and timeouts of any number of other writes — leaves `w` where it was (`c12_independent` iterated). -/
+theorem c12_independent_segment (n w : Nat) (es : List Ev) (sp : Sp) (h : ApprW.NotAbout n w sp es) :
+    (es.foldl (specStep n) sp).st w = sp.st w :=
+  ApprW.spec_frame_segment n w es sp h
+
+/-- non-vacuity: while write 1 waits with one approval, writes 2 and 3 arrive, are approved, denied, time out -/
+example :
+    let sp := specRun 2 [.arrive 1, .lookup 10 1, .commit 10 true]
+    let es : List Ev := [.arrive 2, .arrive 3, .lookup 11 2, .commit 11 true, .lookup 12 3, .commit 12 false,
+      .lookup 13 2, .commit 13 true, .timeoutTake 3, .timeoutSend 3]
+    sp.st 1 = .waiting 1 ∧ (es.foldl (specStep 2) sp).st 1 = .waiting 1 ∧ (es.foldl (specStep 2) sp).st 2 = .done .applied := by
   decide
 
 end Spine.Props.C12
